@@ -237,6 +237,23 @@ def variants():
         add("empty-literal-frag@" + where, lambda s, w=where: place(s, w, D("frag", "@frag '' 'a' @discard", lits=["", "a"], acts=["discard"])))
         add("reversed-range-token@" + where, lambda s, w=where: place(s, w, D("token", "RR = [z-a]", "RR", ranges=[[122, 97]])))
         add("reversed-range-neg@" + where, lambda s, w=where: place(s, w, D("token", "RN = ~[9-0] 'x'", "RN", ranges=[[57, 48]], lits=["x"])))
+    # a reversed range in company: next to / inside / touching other items of the same class (items are flattened and merged
+    # before the automaton is built; the check has to look at the items as written), in negations and on either side of a
+    # difference, spelled with escapes; and the well-formed neighbours of these shapes (lower = upper, nested, touching)
+    company = [("rr-inside", "[a-zm-b]", [[97, 122], [109, 98]]), ("rr-digits", "[0-95-1]", [[48, 57], [53, 49]]),
+               ("rr-after-single", "[ab-a]", [[97, 97], [98, 97]]), ("rr-touching", "[a-cd-b]", [[97, 99], [100, 98]]),
+               ("rr-first-of-two", "[z-ab-c]", [[122, 97], [98, 99]]), ("rr-same-lower", "[m-am-z]", [[109, 97], [109, 122]]),
+               ("rr-neg-company", "~[a-zz-y]", [[97, 122], [122, 121]]), ("rr-escaped", "[\\u0062-\\u0061]", [[98, 97]]),
+               ("rr-escaped-company", "[a-f\\u0065-\\u0062]", [[97, 102], [101, 98]]), ("rr-by-one", "[b-a]", [[98, 97]]),
+               ("rr-diff-right", "[a-z] - [a-zz-y]", [[97, 122], [97, 122], [122, 121]]), ("rr-diff-left", "[a-zq-f] - [x]", [[97, 122], [113, 102], [120, 120]]),
+               ("rr-astral", "[\\U0001F600-\\U0001F5FF]", [[0x1F600, 0x1F5FF]]), ("rr-three", "[a-ce-gf-d]", [[97, 99], [101, 103], [102, 100]])]
+    for tag, cls, rs in company:
+        for where in ("default", "mode"):
+            add("reversed-range:%s@%s" % (tag, where), lambda s, w=where, c=cls, r=rs: place(s, w, D("token", "RC = %s 'k'" % c, "RC", ranges=r, lits=["k"])))
+    okcompany = [("eq", "[a-a]", [[97, 97]]), ("nested", "[a-zb-m]", [[97, 122], [98, 109]]), ("touch", "[a-cd-f]", [[97, 99], [100, 102]]),
+                 ("overlap", "[a-mf-z]", [[97, 109], [102, 122]]), ("dup", "[a-fa-f]", [[97, 102], [97, 102]]), ("unordered", "[x-za-c]", [[120, 122], [97, 99]])]
+    for tag, cls, rs in okcompany:
+        add("wellformed-range:%s" % tag, lambda s, c=cls, r=rs: place(s, "default", D("token", "RC = %s 'k'" % c, "RC", ranges=r, lits=["k"])))
     add("empty-literal-parser@b", lambda s: mutrule(s, "b", " | '' NUM", prefs=["NUM"], aliases=[""]))
     add("empty-literal-parser-list@a", lambda s: mutrule(s, "a", " @list(item, '')", prefs=["item"], aliases=[""]))
     add("empty-literal-macro", lambda s: place(s, "default", D("macro", "@macro EM = 'a' | ''", "EM", lits=["a", ""])))
